@@ -128,6 +128,7 @@ func runC18(w *W) {
 				lit := wrongKindLiteral(w, v.T, opts.String2Int64)
 				style.Override = map[*TVal]string{v: lit}
 				doc.negative = fmt.Sprintf("a %s value spelled %s", typeName(v.T), lit)
+				w.Sig(fmt.Sprintf("neg:%d>%s", v.T.Kind, lit))
 			}
 		}
 		doc.js = style.render(val)
@@ -171,6 +172,9 @@ func runC18(w *W) {
 			}
 			skips = append(skips, skipCase{sv.T.Kind, b})
 		}
+	}
+	for _, c := range caps {
+		w.Sig(fmt.Sprintf("cap%d", c))
 	}
 	skipCuts := make([]int, len(docs))
 	for i, d := range docs {
